@@ -334,6 +334,8 @@ def run(rec, shard, nshards, t):
         check_arrangement(rec, seq, rnd, rnd.choice(['valid', 'valid', 'none', 'dangling']))
     for _ in range(40 if t == 'quick' else 2000):
         whitespace_twins(rec, rnd)
+    for _ in range(3):
+        template_sequence(rec, rnd)
     # Part 2 - inspect
     tmp = tempfile.mkdtemp(prefix='vt-c18-')
     try:
@@ -384,6 +386,28 @@ def canonical_header_witness(rec, tmp):
         judge_inspect(rec, ['Date', 'Description', 'Amount'], out, rc, 'cli')
 
 
+def template_sequence(rec, rnd):
+    """One description template used by two sources of a settings file: each format string is checked against it on its own - the second is rejected when it
+    does not capture a column the template names, whatever was parsed before."""
+    from tally.format_parser import parse_format_string
+    a, b = rnd.choice([('payee', 'memo'), ('type', 'merchant'), ('a', 'b')])
+    template = rnd.choice(['{%s} - {%s}', '{%s} {%s}', '{%s} ({%s})']) % (a, b)
+    steps = [('{date:%%m/%%d/%%Y},{amount},{%s},{%s}' % (a, b), True), ('{date:%%m/%%d/%%Y},{amount},{%s},{_}' % a, False), ('{date:%%m/%%d/%%Y},{%s},{amount},{_}' % b, False),
+             ('{date:%%m/%%d/%%Y},{%s},{%s},{amount}' % (b, a), True), ('{date:%%m/%%d/%%Y},{amount},{%s},{other}' % a, False)]
+    for text, ok in steps:
+        rec.case()
+        rec.count('template_sequence_parses')
+        try:
+            parse_format_string(text, template)
+            accepted = True
+        except ValueError:
+            accepted = False
+        if accepted != ok:
+            rec.violation('accepted-invalid:template-names-an-uncaptured-column:after-an-earlier-parse' if accepted else 'rejected-valid', f'template {template!r}, formats parsed in this order '
+                          f'{[t for t, _ in steps]}: {text!r} was {"accepted" if accepted else "rejected"}', {'kind': 'template-sequence'})
+            return
+
+
 def whitespace_twins(rec, rnd):
     """Format strings that differ only in the width / kind of blanks INSIDE a date format are different format strings:
     parsed one after the other in one process, each must come back with its own date format (no normalising cache)."""
@@ -427,6 +451,9 @@ def replay(rec, case):
             whitespace_twins(rec, rnd)
     elif case['kind'] == 'comma':
         probe_comma(rec)
+    elif case['kind'] == 'template-sequence':
+        for _ in range(20):
+            template_sequence(rec, rnd)
     elif case['kind'] == 'canonical':
         tmp = tempfile.mkdtemp(prefix='vt-c18-')
         try:
